@@ -104,7 +104,16 @@ func (ff *FuncFacts) NC(b *ssa.BasicBlock) []Fact {
 			continue
 		}
 		for _, s := range d.Succs {
-			if len(s.Preds) == 1 && (s == b || s.Dominates(b)) {
+			// the only way into s from outside is the edge d→s (its other predecessors, if any, are
+			// back edges of a loop headed by s): every path to b takes that edge, and after the last
+			// time it does nothing re-evaluates d's condition
+			only := true
+			for _, q := range s.Preds {
+				if q != d && !s.Dominates(q) {
+					only = false
+				}
+			}
+			if only && s != d && !s.Dominates(d) && (s == b || s.Dominates(b)) {
 				if f, ok := edgeFact(d, s); ok {
 					add(f)
 				}
